@@ -72,6 +72,9 @@ def run(ctx) -> Result:
             for law, d, _x in bad[:1]:
                 res.failures.append(core.Failure(what=f"C04: {law}: {d}", case=c, signature={"law": law}, observed=d))
     op.campaign(ctx, res, "C04", programs(ctx, 300 if not ctx.thorough else 1200), judge, n_random=3)
+    # the same oracle with a scheduling point before every source line of the observer's own methods (see obsprog.line_tracer)
+    op.campaign(ctx, res, "C04", [dict(p, line_yield=True) for p in programs(ctx, 60 if not ctx.thorough else 400)], judge,
+                n_random=2, do_lockstep=False, tag="line")
     # identical neighbours in the emitter's script, explored exhaustively under <= 2 pre-emptions: the dispatcher's get()
     # at every point of the emitter's put() (the coalescing state of the queue must change atomically with the enqueue)
     twins = [
